@@ -158,4 +158,14 @@ def run(chk, F, tier):
 
 def run_all(chk, fsets, tier):
     import facts
-    run(chk, facts.load(fsets[0]), tier)
+    F = facts.load(fsets[0])
+    run(chk, F, tier)
+    # the last codes of a strict stream: a code must decode from exactly its own bits, also through the look-ahead tables
+    import rules_ivl, rules_tables
+    sub = chk.sibling()
+    rules_ivl.run_c03_roundtrip(sub, F, fsets[0], tier)
+    chk.include(sub, ("K2.replay",), "E6.tail", "every code reader, interpreted on exactly the primitives its writer emitted with nothing after them, returns the value: it never needs a bit beyond its own codeword (C03)")
+    sub = chk.sibling()
+    rules_tables.check_table_fns(sub, F)
+    rules_tables.check_param_plumbing(sub, F)
+    chk.include(sub, ("T2.shape", "T3.plumbing"), "E6.tables", "a table look-ahead that fails or misses consumes nothing and the read continues exactly like the bit-by-bit implementation (C05)")
